@@ -43,7 +43,8 @@ def main():
     strings = [''.join(p) for n in range(0, 4)
                for p in itertools.product(alpha[:9], repeat=n)]
     strings += [''.join(rnd.choice(alpha) for _ in range(rnd.randint(4, 12)))
-                for _ in range(300)]
+                for _ in range(3000 if os.environ.get('VERIF_TIER') ==
+                               'thorough' else 300)]
     n = 0
     for s in strings:
         for q in ("'", '"'):
